@@ -134,8 +134,9 @@ type c16Hist struct {
 	amu  sync.Mutex
 	sent map[string][]c16Sent // correlation id -> acks the partition sent (hook ack.send)
 
-	failed atomic.Bool
-	inconc atomic.Bool
+	failed  atomic.Bool
+	inconc  atomic.Bool
+	aborted atomic.Bool
 	// porcOnly (env C16_PORC_ONLY=1, sensitivity runs only) switches the
 	// direct oracles off so that the porcupine check is exercised on its own.
 	porcOnly bool
@@ -207,6 +208,14 @@ func c16InstallHook() func() {
 
 const c16IncorrectMsg = "incorrect expected offset"
 
+// c16Unanswered counts publishes that waited the full 20 s for an answer and
+// got none.  That does not happen on a healthy server; when it does the
+// remaining workload is cut short (inconclusive) instead of waiting 20 s per
+// operation until the unit's time limit.
+var c16Unanswered atomic.Int64
+
+const c16MaxUnanswered = 6
+
 // viaAPI publishes through apiServer.Publish.  kind: "" (deadline 20 s),
 // "short" (deadline of a few hundred microseconds: the answer may or may not
 // make it), "nowait" (no deadline: fire and forget), "none" (ack policy NONE:
@@ -240,6 +249,9 @@ func (h *c16Hist) viaAPI(op *c16Op, policy client.AckPolicy, kind string, short 
 			op.Out = c16OutRefused
 		default:
 			op.Out = c16OutOpen
+			if kind == "" {
+				c16Unanswered.Add(1)
+			}
 		}
 		return
 	}
@@ -324,6 +336,7 @@ func (h *c16Hist) viaAsync(s *c16Async, op *c16Op, policy client.AckPolicy) {
 	case <-timer.C:
 		op.Ret = h.now()
 		op.Out, op.Err = c16OutOpen, "session did not take the request"
+		c16Unanswered.Add(1)
 		return
 	}
 	select {
@@ -350,6 +363,7 @@ func (h *c16Hist) viaAsync(s *c16Async, op *c16Op, policy client.AckPolicy) {
 	case <-timer.C:
 		op.Ret = h.now()
 		op.Out, op.Err = c16OutOpen, "no response on the PublishAsync stream"
+		c16Unanswered.Add(1)
 	}
 }
 
@@ -396,6 +410,7 @@ func (h *c16Hist) viaRaw(r *c16Raw, op *c16Op, policy client.AckPolicy, wait boo
 		if err != nil {
 			op.Ret = h.now()
 			op.Out, op.Err = c16OutOpen, "no ack: "+err.Error()
+			c16Unanswered.Add(1)
 			return
 		}
 		ack, err := proto.UnmarshalAck(m.Data)
@@ -533,6 +548,10 @@ func (h *c16Hist) publisher(pub int, kind string, nops int, rng *kit.RNG, raw *c
 		}
 	}
 	for i := 0; i < nops; i++ {
+		if c16Unanswered.Load() >= c16MaxUnanswered {
+			h.aborted.Store(true)
+			return
+		}
 		special := ""
 		switch x := rng.Intn(100); {
 		case x < 5:
@@ -853,6 +872,10 @@ func c16RunHistory(rep *kit.Report, c *vfCluster, srv *Server, cfgDesc string, s
 	wg.Wait()
 	end := h.now()
 	rep.Eval()
+	if h.aborted.Load() {
+		h.inconclusive(fmt.Sprintf("history cut short: %d publishes of this unit waited 20 s without any answer", c16Unanswered.Load()))
+		return
+	}
 	if h.inconc.Load() {
 		return
 	}
@@ -972,7 +995,7 @@ func TestVerifC16Server(t *testing.T) {
 	nsrv := kit.Scale(6, 16)
 	perSrv := kit.Scale(14, 36)
 	hidx := 0
-	for s := 0; s < nsrv && rep.NumViolations() < 4; s++ {
+	for s := 0; s < nsrv && rep.NumViolations() < 4 && c16Unanswered.Load() < c16MaxUnanswered; s++ {
 		rng := root.Fork(uint64(s))
 		bmm := []int{1, 2, 8, 64, 1024}[rng.Intn(5)]
 		bmt := []time.Duration{0, 100 * time.Microsecond, time.Millisecond, 5 * time.Millisecond}[rng.Intn(4)]
@@ -1001,7 +1024,7 @@ func TestVerifC16Server(t *testing.T) {
 		}
 		base := hidx
 		kit.Parallel(perSrv, 3, func(i int) {
-			if rep.NumViolations() >= 4 {
+			if rep.NumViolations() >= 4 || c16Unanswered.Load() >= c16MaxUnanswered {
 				return
 			}
 			c16RunHistory(rep, c, srv, cfgDesc, serverWide, mode, base+i, seeds[i], pool)
